@@ -701,7 +701,11 @@ func genSeqScript(seed uint64, profile string) []string {
 				if g.bounded && r.chance(0.5) {
 					tm = fmt.Sprint(pick(r, []int{1, 2, g.max, g.max + 3, g.max * 2}))
 				}
-				g.add("loadfrom %d %s", slot, tm)
+				if r.chance(0.4) {
+					g.add("loadfrom %d %s used", slot, tm) // into an emptied cache with a past instead of a fresh one
+				} else {
+					g.add("loadfrom %d %s", slot, tm)
+				}
 			} else {
 				if g.deferred {
 					g.add("runexec")
